@@ -107,12 +107,18 @@ func concretise(p prog) string {
 		}
 		return "go " + call(t)
 	}
-	body := func(ins []instr, indent string) {
-		fmt.Fprintf(&b, "%sacc := 0\n%s_ = acc\n", indent, indent)
+	body := func(ins []instr, indent string, t int) {
+		// in the styles with parameters every sent constant goes through the numeric parameter k (passed
+		// as the thread's number), so a goroutine that does not receive its arguments intact prints wrong sums
+		kexpr := ""
+		if t > 1 && p.Style != 0 {
+			kexpr = fmt.Sprintf(" + k - %d", t)
+		}
+		fmt.Fprintf(&b, "%sacc := 0%s\n%s_ = acc\n", indent, kexpr, indent)
 		for _, i := range ins {
 			switch i.Op {
 			case "send":
-				fmt.Fprintf(&b, "%sc%d <- %d\n", indent, i.Ch, i.V)
+				fmt.Fprintf(&b, "%sc%d <- %d%s\n", indent, i.Ch, i.V, kexpr)
 			case "sendacc":
 				fmt.Fprintf(&b, "%sc%d <- acc\n", indent, i.Ch)
 			case "recv":
@@ -144,11 +150,11 @@ func concretise(p prog) string {
 	}
 	for _, t := range scriggoThreads {
 		fmt.Fprintf(&b, "\tt%d = %s {\n", t, sig)
-		body(p.Threads[t-1], "\t\t")
+		body(p.Threads[t-1], "\t\t", t)
 		b.WriteString(ret)
 		b.WriteString("\t}\n")
 	}
-	body(p.Threads[0], "\t")
+	body(p.Threads[0], "\t", 1)
 	b.WriteString("}\n")
 	return b.String()
 }
